@@ -17,10 +17,10 @@ def register(prop, run, KERNELS, C01_COVERS):
                 "inputs satisfying its path condition. ")
 
     prop("C06",
-         quick=[run("C06_step", covers=["done", "delivered", "empty-range", "stopped-early"], nmax=2, cache=1, cmps=1),
+         quick=[run("C06_step", covers=["done", "delivered", "empty-range", "stopped-early"], nmax=2, cache=1, cmps=1, evictin=1),
                 run("C06_step", covers=["done", "delivered", "stopped-early"], nmin=2, nmax=2, cache=0, store=0, cmps=3)],
          thorough=[run("C06_step", covers=["done", "delivered", "empty-range", "stopped-early"], nmax=2, cache=1, cmps=3, klen=2, budget=3000),
-                   run("C06_step", covers=["done", "delivered", "stopped-early"], nmin=3, nmax=3, cache=2, cmps=1, budget=3000),
+                   run("C06_step", covers=["done", "delivered", "stopped-early"], nmin=3, nmax=3, cache=2, cmps=1, evictin=1, budget=3000),
                    run("C06_step", covers=["done", "delivered", "stopped-early"], nmin=4, nmax=4, cache=0, store=0, cmps=2, budget=3000)],
          outside=["collections with more than 3 (quick 2..3) / 4 items", "comparators other than bytes.Compare, its reverse and reversed-string order", "IterateAscend/IterateDescend are covered under C18"],
          text=step_txt + "Oracle: the model's items filtered by the target, ordered by the comparator, cut at the stop position, depth = the depth assigned by the pre-state constructor.",
@@ -42,7 +42,8 @@ def register(prop, run, KERNELS, C01_COVERS):
     prop("C13",
          quick=[run("C13_step", covers=inv_cov + ["decoded", "reopened"], nmax=2, cache=1, decode=1),
                 run("C13_step", covers=inv_cov, nmin=3, nmax=3, store=0, cache=0, variant=1),
-                run("C13_step", covers=inv_cov + ["canonical-checked"], nmax=3, store=0, cache=0, variant=2)],
+                run("C13_step", covers=inv_cov + ["canonical-checked"], nmax=3, store=0, cache=0, variant=2),
+                run("C13_step", covers=inv_cov + ["canonical-checked"], nmin=1, nmax=2, store=1, cache=2, variant=2, vlenmin=0)],
          thorough=[run("C13_step", covers=inv_cov + ["decoded", "reopened"], nmax=2, cache=1, decode=1, klen=2, vlen=2, budget=3000),
                    run("C13_step", covers=inv_cov + ["decoded"], nmin=3, nmax=3, cache=1, decode=1, budget=3000),
                    run("C13_step", covers=inv_cov, nmin=4, nmax=4, store=0, cache=0, variant=1, budget=3000),
@@ -65,6 +66,7 @@ def register(prop, run, KERNELS, C01_COVERS):
          quick=[run("C19_open", covers=["done"], nmax=3),
                 run("C19_keyonly", covers=["done", "some-reads"], nmax=2, preop=0),
                 run("C19_keyonly", covers=["done", "some-reads"], nmax=1, preop=1),
+                run("C19_keyonly", covers=["done", "some-reads"], nmin=3, nmax=3, preop=0, onlyop=8, vlenmin=1),
                 run("C19_race", covers=["done", "preempted"], nmin=1, nmax=1, vlenmin=1, preemptions=1)],
          thorough=[run("C19_open", covers=["done"], nmax=4, klen=2, vlen=2),
                    run("C19_keyonly", covers=["done", "some-reads"], nmax=2, preop=1, budget=3000),
@@ -87,7 +89,7 @@ def register(prop, run, KERNELS, C01_COVERS):
 
     prop("C02",
          quick=[run("C02_step", covers=["done"], nmax=2, cache=1),
-                run("C02_step", covers=["done", "trailing-unflushed", "second-generation"], nmax=1, cache=1, ncolls=2, trailing=1, preop=1, secondgen=1, budget=900)],
+                run("C02_step", covers=["done", "trailing-unflushed", "second-generation"], nmax=1, cache=1, ncolls=2, trailing=1, preop=0, secondgen=1, budget=900)],
          thorough=[run("C02_step", covers=["done"], nmax=3, cache=1, klen=2, vlen=2, budget=3000),
                    run("C02_step", covers=["done", "trailing-unflushed", "second-generation"], nmax=2, cache=1, ncolls=2, trailing=1, preop=1, secondgen=1, budget=3000),
                    run("C02_step", covers=["done", "trailing-unflushed"], nmax=1, cache=1, ncolls=2, trailing=2, preop=1, secondgen=1, budget=3000)],
@@ -110,10 +112,10 @@ def register(prop, run, KERNELS, C01_COVERS):
     prop("C04",
          quick=[run("C04_hist", covers=["done", "had-snapshot"], store=0, k=4, snaps=2, opmask=mask(0, 1, 4, 5, 6)),
                 run("C04_hist", covers=["done", "had-snapshot"], store=1, k=3, snaps=2, opmask=mask(0, 1, 2, 3, 4, 6, 7, 8, 10, 15, 16)),
-                run("C04_hist", covers=["done", "had-snapshot"], store=0, k=4, snaps=2, init=2, opmask=mask(0, 4, 6, 10))],
+                run("C04_hist", covers=["done", "had-snapshot"], store=0, k=4, snaps=2, init=0, opmask=mask(0, 4, 6, 10))],
          thorough=[run("C04_hist", covers=["done", "had-snapshot"], store=1, k=5, snaps=2, opmask=mask(0, 1, 2, 3, 4, 5, 6), budget=3000),
-                   run("C04_hist", covers=["done", "had-snapshot"], store=0, k=6, snaps=2, init=2, opmask=mask(0, 4, 6), budget=3000),
-                   run("C04_hist", covers=["done", "had-snapshot"], store=1, k=5, snaps=2, init=1, opmask=mask(0, 2, 4, 6, 10, 16), budget=3000),
+                   run("C04_hist", covers=["done", "had-snapshot"], store=0, k=6, snaps=2, init=0, opmask=mask(0, 4, 6), budget=3000),
+                   run("C04_hist", covers=["done", "had-snapshot"], store=0, k=5, snaps=2, init=0, opmask=mask(0, 4, 6, 10), budget=3000),
                    run("C04_hist", covers=["done", "had-snapshot"], store=1, k=4, snaps=3, opmask=mask(0, 1, 2, 3, 4, 5, 6, 7, 8, 9, 10, 15), budget=3000)],
          outside=["histories longer than K = 4 (quick) / 5 (thorough) steps", "more than 2 / 3 snapshots, more than collections a, b", "FlushRevert on the original while snapshots are open (documented as unsupported)", "1-byte keys and values"],
          text=hist_txt + "Operations: Set, Delete, Flush, Evict, Snapshot (of the store or of a snapshot), close a snapshot, snapshot.FlushRevert, RemoveCollection, SetCollection on an existing name, Store.Close. Snapshots must keep reading the contents at their creation, must refuse Set/Delete/Flush, and snapshot-side operations must not write to the file.",
@@ -161,12 +163,15 @@ def register(prop, run, KERNELS, C01_COVERS):
          note=NOTE, technique=TECH, design_ref="DESIGN.md §4 C07")
 
     prop("C08",
-         quick=[run("C08_revert", covers=["done", "reverted-to-empty", "reverted-to-flush", "continued"], store=1, flushes=2, unwind_violation=1, step_budget=400000),
-                run("C08_revert", covers=["memonly"], store=0, flushes=0, unwind_violation=1)],
-         thorough=[run("C08_revert", covers=["done", "reverted-to-empty", "reverted-to-flush", "continued"], store=1, flushes=3, unwind_violation=1, step_budget=800000, budget=3000),
-                   run("C08_revert", covers=["memonly"], store=0, flushes=0, unwind_violation=1)],
-         outside=["more than 2 (quick) / 3 (thorough) flushes before the reverts", "collections other than a", "1-byte keys and values"],
-         text="Bounded symbolic model checking of the real SSA: histories with f flushes of symbolic data (optionally across a re-open, optionally with an unflushed change pending) followed by r = 1..f+1 consecutive FlushReverts. Termination is checked with a code-derived step cap (each scan iteration strictly decreases Store.size): exceeding it is reported as the violation and confirmed natively under a watchdog. State, file length and a re-open must match the model's flush stack after each revert; new flushes after a revert must be durable; memory-only stores must reject the call.",
+         quick=[run("C08_revert", covers=["done", "reverted-to-empty", "reverted-to-flush"], store=1, flushes=2, bigval=1, lean=1, unwind_violation=1, step_budget=400000),
+                run("C08_revert", covers=["done", "reverted-to-empty", "continued"], store=1, flushes=1, bigval=0, lean=0, unwind_violation=1, step_budget=400000),
+                run("C08_revert", covers=["memonly"], store=0, flushes=0, bigval=0, lean=0, unwind_violation=1)],
+         thorough=[run("C08_revert", covers=["done", "reverted-to-empty", "reverted-to-flush", "continued"], store=1, flushes=2, bigval=0, lean=0, unwind_violation=1, step_budget=400000, budget=3000),
+                   run("C08_revert", covers=["done", "reverted-to-empty", "reverted-to-flush"], store=1, flushes=3, bigval=1, lean=1, unwind_violation=1, step_budget=800000, budget=3000),
+                   run("C08_revert", covers=["done", "reverted-to-empty", "reverted-to-flush", "continued"], store=1, flushes=2, bigval=1, lean=0, unwind_violation=1, step_budget=400000, budget=3000),
+                   run("C08_revert", covers=["memonly"], store=0, flushes=0, bigval=0, lean=0, unwind_violation=1)],
+         outside=["more than 2 (quick) / 3 (thorough) flushes before the reverts", "collections other than a", "1-byte keys; values of 1 byte, or 12 symbolic bytes (long enough to spell the doubled end marker) for the first item of the newest flush"],
+         text="Bounded symbolic model checking of the real SSA: histories with f flushes of symbolic data (optionally across a re-open, optionally with an unflushed change pending, set only or also written with Collection.Write) followed by r = 1..f+1 consecutive FlushReverts. Termination is checked with a code-derived step cap (each scan iteration strictly decreases Store.size): exceeding it is reported as the violation and confirmed natively under a watchdog. State, file length and a re-open must match the model's flush stack after each revert; new flushes after a revert must be durable; memory-only stores must reject the call. A 12-byte symbolic value lets the solver try to fool the backward scan with look-alike end markers.",
          note=NOTE, technique=TECH, design_ref="DESIGN.md §4 C08")
 
     prop("C11",
@@ -204,6 +209,7 @@ def register(prop, run, KERNELS, C01_COVERS):
 
     prop("C18",
          quick=[run("C18_iter", covers=["done", "closed", "exhausted"], nmax=2, store=0, cache=0, preemptions=1),
+                run("C18_iter", covers=["done", "closed"], nmin=1, nmax=1, store=0, cache=0, preemptions=1, itermut=1),
                 run("C18_reentrant", covers=["done"], nmin=1, nmax=2, store=1, cache=2)],
          thorough=[run("C18_iter", covers=["done", "closed", "exhausted"], nmax=3, store=0, cache=0, preemptions=2, budget=3000),
                    run("C18_iter", covers=["done", "closed", "exhausted"], nmax=2, store=1, cache=2, preemptions=1, budget=3000),
